@@ -164,7 +164,7 @@ def host_info(src, reg):
     region_text = src[reg["start"]:reg["end"]]
     return {"walrus": any(isinstance(n, ast.NamedExpr) for n in scope_nodes),
             "annassign": any(isinstance(n, ast.AnnAssign) for n in scope_nodes),
-            "unannotated": unannotated, "super_in_region": "super()" in region_text,
+            "unannotated": unannotated, "super_in_region": "super" in region_text,
             "host_decl": any(isinstance(n, (ast.Global, ast.Nonlocal)) for n in scope_nodes)}
 
 
@@ -305,6 +305,9 @@ def run_case(spec):
                         cause, feat = flowref.classify_method_extraction(src, reg["start"], reg["end"],
                                                                           new_files.get(path, ""))
                         return f"cause={cause}" + (f"({feat})" if feat else "")
+
+                    if not labels and kind == "method":
+                        feats = f"core|{reg['cls']}"   # host / ctx are secondary once the cause is named
                     out = behave.judge(case, request, res, f"extract-{kind}", feats, coarse=bool(labels), classify=classify,
                                        detail={"file": path, "region": [reg["start"], reg["end"]],
                                                "region_text": src[reg["start"]:reg["end"]][:400],
